@@ -807,6 +807,28 @@ def eval_control(case: dict[str, Any], cin: Any, cout: Any, data: Any, log: list
     if has_pf:
         nbranches = max([len(x['branches']) for x in walk(tree) if x['t'] == 'par' and x['pick_first']] or [1])
     obs = observed_state(data, n)
+    real_all = [e for e in log if e[0] in ('pass', 'pred', 'cond')]
+
+    def log_mismatch(lg: list[Any]) -> dict[str, Any] | None:
+        """Side-channel trace (real executions, including reverted and
+        unselected ones) against the interpreter's, per ParallelDo context."""
+        real = real_all
+        want = flatten_log(lg)
+        if has_pf:
+            real = [e for e in real if e[1] not in pf_ids]
+            want = [e for e in want if e[1] not in pf_ids]
+        ctxs = {paths.get(e[1], ()) for e in real + want}
+        for cx in sorted(ctxs, key=repr):
+            r = [e for e in real if paths.get(e[1], ()) == cx]
+            x = [e for e in want if paths.get(e[1], ()) == cx]
+            if r != x:
+                i = next((j for j, (a_, b_) in enumerate(zip(r, x)) if a_ != b_), min(len(r), len(x)))
+                return dict(
+                    kind='control:executed_trace_differs', context=list(cx), position=i,
+                    observed=r[max(0, i - 2):i + 3], expected=x[max(0, i - 2):i + 3], lengths=[len(r), len(x)],
+                )
+        return None
+
     best = None
     for pick in range(nbranches):
         st = init_state(case, n, cin.num_operations)
@@ -815,15 +837,19 @@ def eval_control(case: dict[str, Any], cin: Any, cout: Any, data: Any, log: list
         lg: list[Any] = []
         it.seq(tree, st, lg)
         diff = compare_state(st, obs, cin, cout, data, n)
-        if best is None or len(diff) < len(best[0]):
-            best = (diff, st, lg, it, pick)
-        if not diff:
+        lm = log_mismatch(lg)
+        score = (len(diff), lm is not None)
+        if best is None or score < best[0]:
+            best = (score, diff, st, lm, it)
+        if score == (0, False):
             break
     assert best is not None
-    diff, st, lg, it, pick = best
+    _, diff, st, lm, it = best
     for k, v in it.counts.items():
         cnt[k] += v
     cnt['control_states_compared'] += 1
+    cnt['side_channel_events'] += len(real_all)
+    cnt['side_channel_checks'] += 1
     info = {'trace_len': len(st['trace']), 'fields_differing': diff, 'style': case['style']}
     if diff:
         # name the mechanism: does "become does not copy the mappings" explain it exactly?
@@ -845,25 +871,8 @@ def eval_control(case: dict[str, Any], cin: Any, cout: Any, data: Any, log: list
             expected={f: st[f] for f in diff if f in st}, observed={f: obs[f] for f in diff if f in obs},
             explained_by_become_not_copying_mappings=explained,
         ))
-    # side-channel trace: real executions, including reverted / unselected ones
-    real = [e for e in log if e[0] in ('pass', 'pred', 'cond')]
-    want = flatten_log(lg)
-    if has_pf:
-        real = [e for e in real if e[1] not in pf_ids]
-        want = [e for e in want if e[1] not in pf_ids]
-    ctxs = {paths.get(e[1], ()) for e in real + want}
-    cnt['side_channel_events'] += len(real)
-    for cx in sorted(ctxs, key=repr):
-        r = [e for e in real if paths.get(e[1], ()) == cx]
-        x = [e for e in want if paths.get(e[1], ()) == cx]
-        if r != x:
-            i = next((j for j, (a, b) in enumerate(zip(r, x)) if a != b), min(len(r), len(x)))
-            w.append(dict(
-                kind='control:executed_trace_differs', context=list(cx), position=i,
-                observed=r[max(0, i - 2):i + 3], expected=x[max(0, i - 2):i + 3], lengths=[len(r), len(x)],
-            ))
-            break
-    cnt['side_channel_checks'] += 1
+    if lm is not None:
+        w.append(lm)
     return w, cnt, info
 
 
@@ -969,7 +978,6 @@ def make_case(seed: int, part: str, idx: int) -> dict[str, Any]:
 
 
 def run_batch(arg: tuple[int, str, list[tuple[str, int]]]) -> list[dict[str, Any]]:
-    from vlib.compiledrv import new_compiler
     seed, tier, items = arg
     wd = TIERS[tier]['watchdog']
     tmpdir = tempfile.mkdtemp(prefix='part-c11-')
@@ -979,7 +987,7 @@ def run_batch(arg: tuple[int, str, list[tuple[str, int]]]) -> list[dict[str, Any
         for part, idx in items:
             case = make_case(seed, part, idx)
             if comp is None:
-                comp = new_compiler(WORKERS_PER_COMPILER)
+                comp = wl.safe_compiler(WORKERS_PER_COMPILER)
             t0 = time.monotonic()
             try:
                 r = run_one(comp, case, tmpdir, wd)
@@ -988,10 +996,7 @@ def run_batch(arg: tuple[int, str, list[tuple[str, int]]]) -> list[dict[str, Any
                      'err': '%s: %s @ %s' % (type(e).__name__, str(e)[:200], core.short_tb(e))}
             r['wall'] = time.monotonic() - t0
             if r['rebuild']:
-                try:
-                    comp.close()
-                except Exception:  # noqa
-                    pass
+                wl.close_compiler(comp)
                 comp = None
             for x in r['w']:
                 x['case'] = case
@@ -1004,10 +1009,7 @@ def run_batch(arg: tuple[int, str, list[tuple[str, int]]]) -> list[dict[str, Any
             out.append(r)
     finally:
         if comp is not None:
-            try:
-                comp.close()
-            except Exception:  # noqa
-                pass
+            wl.close_compiler(comp)
         shutil.rmtree(tmpdir, ignore_errors=True)
     return out
 
@@ -1031,7 +1033,12 @@ def merge(run: core.Run, r: dict[str, Any]) -> None:
         nt = info.get('trace_len', 0) >= 3
     run.case(m['sig'], nontrivial=bool(nt), sample={'case': m['desc'], 'observed': info})
     for x in r['w']:
+        KIND_FILES[x['kind']] += 1
+        run.max_violation_files = 10 ** 6 if KIND_FILES[x['kind']] <= 3 else 0
         run.violation(x)
+
+
+KIND_FILES: Counter = Counter()
 
 
 def main(tier: str, seed: int, replay: str | None = None) -> int:
@@ -1067,18 +1074,14 @@ def main(tier: str, seed: int, replay: str | None = None) -> int:
 
 
 def do_replay(run: core.Run, path: str) -> int:
-    from vlib.compiledrv import new_compiler
     w = json.load(open(path))['witness']
     case = w['case']
     tmpdir = tempfile.mkdtemp(prefix='part-c11-')
-    comp = new_compiler(WORKERS_PER_COMPILER)
+    comp = wl.safe_compiler(WORKERS_PER_COMPILER)
     try:
         r = run_one(comp, case, tmpdir, 300)
     finally:
-        try:
-            comp.close()
-        except Exception:  # noqa
-            pass
+        wl.close_compiler(comp)
         shutil.rmtree(tmpdir, ignore_errors=True)
     run.count('compiled:' + case['part'])
     run.case(('replay', case))
